@@ -34,21 +34,36 @@ pub struct GroupModel {
     pub last_cap: usize,
     pub ops_left: u32,
     pub saw_none: bool,
+    /// a history of hundreds of operations: most members are short-lived
+    pub marathon: bool,
+    pub burst_pending: bool,
 }
 
 impl GroupModel {
     fn count(&self) -> usize {
         self.live.len() + self.unknown.len()
     }
-    fn is_live(&self, n: NodeId) -> bool {
-        self.unknown.contains(&n) || self.live.values().any(|&m| m == n)
+    /// `key` is the key the harness recorded for member `n` (None if unknown)
+    fn is_live(&self, n: NodeId, key: Option<usize>) -> bool {
+        match key {
+            Some(k) if self.live.get(&k) == Some(&n) => true,
+            _ => self.unknown.contains(&n),
+        }
     }
-    fn forget(&mut self, n: NodeId) {
+    fn forget(&mut self, n: NodeId, key: Option<usize>) {
+        if let Some(k) = key {
+            if self.live.get(&k) == Some(&n) {
+                self.live.remove(&k);
+                return;
+            }
+        }
         self.unknown.retain(|&m| m != n);
-        self.live.retain(|_, m| *m != n);
     }
-    fn key_of(&self, n: NodeId) -> Option<usize> {
-        self.live.iter().find(|(_, &m)| m == n).map(|(k, _)| *k)
+    fn key_of(&self, n: NodeId, key: Option<usize>) -> Option<usize> {
+        match key {
+            Some(k) if self.live.get(&k) == Some(&n) => Some(k),
+            _ => None,
+        }
     }
     fn see(&mut self, k: usize) {
         if !self.keys_seen.contains(&k) {
@@ -83,17 +98,32 @@ pub fn plan(w: &mut World, p: &Profile, prop: &str) -> Plan {
         _ => w.ch.draw("group.stream", 2) == 1,
     };
     let keyed = w.ch.draw("group.keyed", 2) == 1;
-    let cap = match w.ch.draw("group.cap", 4) {
+    let cap = match w.ch.draw("group.cap", 5) {
         0 => None,
         1 => Some(0),
-        _ => Some(1 + w.ch.draw("group.capn", 5) as usize),
+        2 | 3 => Some(1 + w.ch.draw("group.capn", 5) as usize),
+        _ => Some([7, 8, 15, 16, 31, 32, 63, 64, 65][w.ch.draw("group.capbig", 9) as usize]),
     };
-    let ops = 2 + w.ch.draw("group.ops", 14);
+    // mostly short histories; one in five is longer, one in thirty is a marathon of hundreds of operations
+    // (total insertions beyond 255 while few members are alive at any time)
+    let ops = match w.ch.draw("group.len", 30) {
+        0 if prop != "C02" && !crate::gen::small() => 260 + w.ch.draw("group.ops.long", 120),
+        1..=6 => 16 + w.ch.draw("group.ops.mid", 30),
+        _ => 2 + w.ch.draw("group.ops", 14),
+    };
     // construction through FromIterator (keys unknown to the harness) in one run out of six
     let from_iter = if w.ch.draw("group.from_iter", 6) == 5 { w.ch.draw("group.from_iter.n", 5) as usize } else { 0 };
     // one run in ten starts with a burst of short-lived members inserted before the first poll, so that many
     // members finish in the same poll (the deferred key-removal queue of StreamGroup is a SmallVec of 10)
-    let burst = if w.ch.draw("group.burst", 7) == 6 { 9 + w.ch.draw("group.burst.n", 10) as usize } else { 0 };
+    // bursts of members inserted before the first poll: usually 9..18, sometimes 33..70 (beyond any per-poll
+    // budget of 32 and beyond the 22-entry inline state buffer twice over), rarely 250..310 (keys, capacity and the
+    // readiness bitset cross 255/256 and several 64-bit blocks). Not the large ones for C02 (crash-point enumeration).
+    let burst = match w.ch.draw("group.burst", 60) {
+        0 if prop != "C02" && !crate::gen::small() => 250 + w.ch.draw("group.burst.wide", 60) as usize,
+        1..=4 if prop != "C02" && !crate::gen::small() => 33 + w.ch.draw("group.burst.mid", 38) as usize,
+        5..=12 => 9 + w.ch.draw("group.burst.n", 10) as usize,
+        _ => 0,
+    };
     let cancel_at = if p.allow_cancel && w.ch.draw("cancel", 5) == 4 { Some(w.ch.draw("cancel.at", 8)) } else { None };
     Plan {
         shape: Shape::Group { stream, keyed, cap, ops, from_iter, burst },
@@ -125,8 +155,20 @@ macro_rules! group_root {
                     $name::Keyed(g, k) => (&mut **g, k),
                 }
             }
+            /// the harness's key objects, stored at the position of their index
             fn find(keys: &[$key], idx: usize) -> Option<$key> {
-                keys.iter().copied().find(|k| key_index(k) == idx)
+                match keys.get(idx) {
+                    Some(k) if key_index(k) == idx => Some(*k),
+                    _ => None,
+                }
+            }
+            fn remember(keys: &mut Vec<$key>, k: $key) {
+                let idx = key_index(&k);
+                // positions below a key's index hold placeholder copies until their own key is seen
+                while keys.len() <= idx {
+                    keys.push(k);
+                }
+                keys[idx] = k;
             }
         }
         impl Root for $name {
@@ -143,7 +185,7 @@ macro_rules! group_root {
                         Poll::Ready(Some((k, v))) => {
                             let idx = key_index(&k);
                             if Self::find(keys, idx).is_none() {
-                                keys.push(k);
+                                Self::remember(keys, k);
                             }
                             harvest_out(KeyedItem(idx, v), Res::Some)
                         }
@@ -160,7 +202,7 @@ macro_rules! group_root {
                 let k = g.insert($mk(node));
                 let idx = key_index(&k);
                 if Self::find(keys, idx).is_none() {
-                    keys.push(k);
+                    Self::remember(keys, k);
                 }
                 idx
             }
@@ -231,10 +273,18 @@ fn burst_member(w: &mut World) -> NodeId {
     use crate::world::{Step, Terminal, Wake};
     let stream = w.model.group.stream;
     let mut script = Vec::new();
-    match w.ch.draw("burst.kind", 6) {
-        0 => script.push(Step::Pend(Wake::Later(0))),
-        1 if stream => script.push(Step::Item),
+    // per-run bias: in half of the runs most burst members are Pending at first (woken later, or never)
+    let pending_bias = w.model.group.burst_pending;
+    let k = w.ch.draw("burst.kind", 6);
+    match (pending_bias, k) {
+        (true, 0..=3) => script.push(Step::Pend(Wake::Later(w.ch.draw("burst.delay", 3)))),
+        (true, 4) => script.push(Step::Pend(Wake::NoWake)),
+        (false, 0) => script.push(Step::Pend(Wake::Later(0))),
+        (false, 1) if stream => script.push(Step::Item),
         _ => {}
+    }
+    if pending_bias && k == 4 {
+        return w.new_leaf(ROOT, script, Terminal::Never, stream, false);
     }
     script.push(if stream { Step::End } else { Step::Ready { err: false } });
     w.new_leaf(ROOT, script, Terminal::Finished, stream, false)
@@ -245,7 +295,8 @@ pub fn build(plan: &Plan) -> Box<dyn Root> {
     with(|w| {
         let root = w.new_node(NO_NODE, if stream { Family::StreamGroup } else { Family::FutGroup });
         debug_assert_eq!(root, ROOT);
-        w.model.group = GroupModel { active: true, stream, keyed, ops_left: ops, ..GroupModel::default() };
+        let burst_pending = burst > 0 && w.ch.draw("burst.pending", 2) == 1;
+        w.model.group = GroupModel { active: true, stream, keyed, ops_left: ops, marathon: ops >= 200, burst_pending, ..GroupModel::default() };
         w.emit(Ev::RootCreated { fam: w.node(ROOT).fam });
     });
     // members handed over through FromIterator: their keys are unknown to the harness
@@ -323,11 +374,21 @@ pub fn build(plan: &Plan) -> Box<dyn Root> {
 
 // ------------------------------------------------------------------ operations
 
+pub fn planned_ops(plan: &Plan) -> u32 {
+    match plan.shape {
+        Shape::Group { ops, burst, .. } => ops + burst as u32,
+        _ => 0,
+    }
+}
+
 pub fn op_enabled(plan: &Plan) -> bool {
     matches!(plan.shape, Shape::Group { .. }) && with(|w| w.model.group.ops_left > 0)
 }
 
 fn new_member(w: &mut World) -> NodeId {
+    if w.model.group.marathon && w.ch.draw("gop.short", 4) != 0 {
+        return burst_member(w);
+    }
     let p = crate::gen::profile(w.prop);
     let stream = w.model.group.stream;
     let lp = if stream { crate::gen::stream_script(w, &p, false) } else { crate::gen::fut_script(w, false, &p, false, 0) };
@@ -420,7 +481,7 @@ pub fn do_op(_plan: &mut Plan, root: &mut dyn Root) {
                             let cands: Vec<NodeId> = w.model.group.unknown.iter().copied().filter(|&m| w.node(m).dropped == 1).collect();
                             if cands.len() == 1 {
                                 let m = cands[0];
-                                w.model.group.forget(m);
+                                { let k = w.node(m).key; w.model.group.forget(m, k); }
                                 w.node_mut(m).removed = true;
                                 w.node_mut(m).key = Some(key);
                             } else {
@@ -522,7 +583,7 @@ pub fn on_root_poll_end(w: &mut World, out: &Out) {
     let lr = pre(w, "lr");
     // every polled member must be live in the model
     for &(id, _, _) in &frame {
-        if !w.model.group.is_live(id) {
+        if !{ let k = w.node(id).key; w.model.group.is_live(id, k) } {
             w.flag(lr, || format!("n{id} was polled although it is not a member of the group (yielded, ended or removed earlier)"));
         }
     }
@@ -545,7 +606,7 @@ pub fn on_root_poll_end(w: &mut World, out: &Out) {
         w.stats.p_multi_end_gt10 += 1;
     }
     for &m in &ended {
-        w.model.group.forget(m);
+        { let k = w.node(m).key; w.model.group.forget(m, k); }
         if w.node(m).dropped != 1 {
             let d = w.node(m).dropped;
             w.flag("c12.end_drop", || format!("member n{m} returned None in this poll but was dropped {d} times by the end of it (expected: dropped and forgotten in that poll)"));
@@ -562,7 +623,7 @@ pub fn on_root_poll_end(w: &mut World, out: &Out) {
             }
             if w.model.group.keyed && out.res == Res::Some {
                 let ko = pre(w, "key");
-                match (w.model.group.key_of(m), out.key) {
+                match ({ let k = w.node(m).key; w.model.group.key_of(m, k) }, out.key) {
                     (Some(k), Some(got)) if k != got => {
                         w.flag(ko, || format!("item of member n{m} (inserted with key {k}) was yielded with key {got}"));
                     }
@@ -582,7 +643,7 @@ pub fn on_root_poll_end(w: &mut World, out: &Out) {
                 }
             }
             if !stream {
-                w.model.group.forget(m);
+                { let k = w.node(m).key; w.model.group.forget(m, k); }
             }
         }
         None => {
